@@ -144,6 +144,7 @@ func report(c *core.Ctx, cs Case, r sched.Result, info *runInfo) {
 	if len(cs.Progs) > 1 && pre > 0 {
 		c.Nontrivial()
 	}
+	failsBefore := c.Stats["oracle_failures"]
 	if r.Panic != "" {
 		c.Fail("panic or runaway schedule in sync2.Set", r.Panic)
 	} else if r.Deadlock {
@@ -152,7 +153,7 @@ func report(c *core.Ctx, cs Case, r sched.Result, info *runInfo) {
 		c.Fail(msg, describe(info))
 	}
 	emitCount++
-	if emitEvery > 1 && emitCount%emitEvery != 0 && c.Stats["oracle_failures"] == 0 {
+	if emitEvery > 1 && emitCount%emitEvery != 0 && c.Stats["oracle_failures"] == failsBefore {
 		c.Count("explored_oracle_only")
 		return
 	}
